@@ -22,6 +22,9 @@ def run(ctx, rep):
     rep.rule('R02.args', 'every range hand-over between read-path layers passes the confirmed argument forms (first/last/next derivation, tier split, relative vs absolute offsets)', floor=20, analysis='A10')
     forms.check_call_args(ctx, rep, 'R02.args', rf.CALLS)
 
+    rep.rule('R02.pos', 'index positions point at batch starts: writers and forms of Segment.last_index_position (end of log at load, + batch size at persist)', floor=2, analysis='A10')
+    sf.check(ctx, rep, 'R02.pos', part_fields=(), seg_fields=('last_index_position',))
+
     # ------------------------------------------------------------ siblings
     rep.rule('R02.f', 'sibling implementations agree: the two range readers of the log use the same stop condition; both index lookups are reached from the same loader with the same range', floor=2, analysis='A6')
     a = comparison_forms(ctx, rf.LR + '::load_batches_by_range_impl')
